@@ -287,6 +287,15 @@ def gen_scenario(rng, **opts):
             for r in u["runners"]:
                 if r.get("af") is not None:
                     r["af"] = val
+    # markets whose definition publishes NO adjustment factor (types without reduction terms do not): a removed runner then arrives
+    # with factor None - its bets are void all the same, nobody else's are reduced.  Only for type OTHER: in WIN / PLACE markets the
+    # exchange always publishes the factor (and the real MARKET_ON_CLOSE lay formula raises TypeError on None).  Own generator again.
+    nf = random.Random("nofactor|%r|%r" % (len(markets), markets[0]["updates"][0]["runners"]))
+    for m in markets:
+        if m["type"] == "OTHER" and nf.random() < opts.get("p_no_factor", 0.4):
+            for u in m["updates"]:
+                for r in u["runners"]:
+                    r["af"] = None
     # a limit of exactly zero ("risk nothing": the usual way to switch a strategy off) in a few scenarios; drawn from a
     # generator of its own so that the main random stream (and every recorded seed) stays as it was
     zr = random.Random("zero|%r|%r" % (sc["strategies"], markets[0]["updates"][0]["runners"][0]))
